@@ -35,6 +35,7 @@ package ringbuffer
 //@ func (*RingBuffer).Push(item)
 //@   props C14 C01 C03
 //@   requires rb != nil
+//@   modifies rb.content, rb.len, rb.content.*, elements(rb.content.items)
 //@   atunlock[C14.push.len] rb.len == old(rb.len) + 1
 //@   atunlock[C14.push.last] viewat(rb, old(rb.len)) == item
 //@   atunlock[C14.push.prefix] forall(k, 0 <= k && k < old(rb.len) ==> viewat(rb, k) == old(viewat(rb, k)))
@@ -48,11 +49,13 @@ package ringbuffer
 //@ func (*RingBuffer).Len()
 //@   props C14 C03
 //@   requires rb != nil
+//@   modifies
 //@   ensures[C14.len.nonneg] result >= 0
 
 //@ func (*RingBuffer).Pop() (item, ok)
 //@   props C14
 //@   requires rb != nil
+//@   modifies rb.len, rb.content.*, elements(rb.content.items)
 //@   ensures[C14.pop.empty] old(rb.len) == 0 ==> !ok && rb.len == 0
 //@   ensures[C14.pop.head] old(rb.len) > 0 ==> ok && item == old(viewat(rb, 0))
 //@   ensures[C14.pop.len] old(rb.len) > 0 ==> rb.len == old(rb.len) - 1
@@ -61,6 +64,7 @@ package ringbuffer
 //@ func (*RingBuffer).PopN(n) (items, ok)
 //@   props C14 C01 C03
 //@   requires rb != nil
+//@   modifies rb.len, rb.content.*, elements(rb.content.items)
 //@   requires[C14.popn.n] n >= 0
 //@   ensures[C14.popn.empty] old(rb.len) == 0 ==> !ok && isnil(items) && rb.len == 0
 //@   ensures[C14.popn.count] old(rb.len) > 0 ==> ok && len(items) == min(n, old(rb.len))
